@@ -14,6 +14,7 @@ scripted inner actions.  The monitor follows the statement clause by clause (see
   deliveries made after the outermost exit must settle exactly once per watcher, one event per parameter, carrying
   the final value.
 """
+import copy
 from pv.kit.eqspec import EQ, EQUAL, DIFFERENT, UNSPEC   # noqa: F401
 from pv.kit import values as V
 
@@ -186,6 +187,9 @@ class Run:
             for _ in range(rng.choice([1, 1, 2])):
                 # acyclic by construction: a callback on parameter i only assigns to parameters > i
                 w['actions'].append(('set', NAMES[rng.randint(mx + 1, 3)], rng.random() < 0.2))
+        if 'cascade' in self.feats and self.level == 'instance' and rng.random() < 0.06:
+            # a callback that takes a copy of the object it is called for (must not disturb the dispatch in progress)
+            w['actions'].insert(rng.randint(0, len(w['actions'])), ('copy',))
         if 'cb_unwatch' in self.feats and rng.random() < 0.12:
             w['actions'].append(('unwatch_self',) if rng.random() < 0.5 else ('unwatch_other',))
         grp = [w]
@@ -263,6 +267,11 @@ class Run:
                         self.stats['nested_ops'] += 1
                         key = (act[1], 'value')
                         self.do_set(key, self.model[key] if act[2] else V.pool(self.rng))
+                    elif act[0] == 'copy':
+                        self.stats['copies_inside_callbacks'] = self.stats.get('copies_inside_callbacks', 0) + 1
+                        # (deep copies only: a shallow copy.copy() shares the private namespace with the original and is not
+                        #  among the copy mechanisms any of the properties speaks about)
+                        copy.deepcopy(self.o)
                     elif act[0] == 'unwatch_self':
                         self.do_unwatch(w)
                     elif act[0] == 'unwatch_other':
